@@ -235,11 +235,18 @@ def r2_wiring(facts, rep):
                 rep.ob("C01-R2", "op:%s" % tok, got == {want}, "op() maps %s to %s" % (tok, sorted(map(str, got))),
                        sample={"token": tok, "operator": sorted(map(str, got))})
         rep.floor("C01-R2", "operator tokens", n, 7)
-    dt, sw = dispatch_table(facts)
-    if rep.ob("C01-R2", "anchor:dispatch", dt is not None, "operator dispatch of eval::eval found"):
-        for opk, fn in WANT_FN.items():
-            rep.ob("C01-R2", "dispatch:%s" % opk, dt.get(opk) == fn, "eval dispatches %s to %s" % (opk, dt.get(opk)),
-                   sample={"op": opk, "fn": dt.get(opk)})
+    # which function an operator kind is folded with: from the summary of eval::eval on OPERATION [x op y] (helpers followed)
+    from . import evalnode
+    for opk, fn in WANT_FN.items():
+        try:
+            dom, res = evalnode.fold_summary(facts, [opk])
+        except core.Undecided as e:
+            rep.ob("C01-R2", "dispatch:%s" % opk, False, "undecided: %s" % e)
+            continue
+        used = {e[1] for o, u, ev in res for e in ev if e[0] in ("operator", "operator-failed")}
+        oks = [ev for o, u, ev in res if u and u[0] == "ok"]
+        rep.ob("C01-R2", "dispatch:%s" % opk, used == {fn} and len(oks) >= 1, "eval folds %s with %s" % (opk, sorted(used)),
+               sample={"op": opk, "fn": sorted(used)})
 
 
 # ---- R3: forwarding of the Rational operators -------------------------------------------------------------------
@@ -589,34 +596,60 @@ def r5_percent(facts, rep):
            facts.fn("eval::eval").site(), sample={"value": repr(oks[0]) if oks else None})
 
 
-def r6_fold(facts, rep):
-    rep.rule("C01-R6", "left fold: in the OPERATION loop of eval::eval the operator function is called with "
-                       "(span, accumulated value, freshly evaluated right operand) and its result becomes the new accumulator")
-    body = anchor(rep, "C01-R6", facts, "eval::eval")
-    if body is None:
+FOLD_CASES = (["OP_SUB", "OP_DIV"], ["OP_POWER", "OP_ADD"], ["OP_MUL", "OP_MUL", "OP_SUB"], ["OP_CAST", "OP_ADD"], ["OP_ADD", "OP_CAST"],
+              ["OP_CAST", "OP_CAST"])
+
+
+def r6_fold(facts, rep, rule="C01-R6"):
+    rep.rule(rule, "left fold: summary of eval::eval on OPERATION nodes with two and three operators (sub-evaluations, the unit "
+                   "parser, the operator functions and Compound::factor as effects, helpers followed): on the path where "
+                   "everything succeeds every operator is applied, in order, to (result so far, its own right operand); the "
+                   "result of the node is the last result; a conversion `to` in the middle of a chain does not end the fold")
+    from . import evalnode
+    if anchor(rep, rule, facts, "eval::eval") is None:
         return
-    ind = [(blk, t, sp) for blk, t, sp in body.terms() if t["k"] == "call" and F.is_indirect(t) and len(t["args"]) == 3]
-    rep.floor("C01-R6", "indirect operator calls", len(ind), 1)
-    for blk, t, sp in ind:
-        fsrc = flow.slice_back(body, t["callee"]["op"])
-        fns = {l[1] for l in fsrc if l[0] == "fn"}
-        l1 = {l[1] for l in flow.slice_back(body, t["args"][1]) if l[0] == "call"}
-        l2 = {l[1] for l in flow.slice_back(body, t["args"][2]) if l[0] == "call"}
-        good = l1 == {"eval::DelayedEval::<'_>::eval"} and l2 == {"eval::eval"} and fns >= set(WANT_FN.values())
-        rep.ob("C01-R6", "operand-order", good, "op(span, %s, %s) with op in %s" % (sorted(l1), sorted(l2), sorted(fns)), body.site(sp),
-               sample={"lhs": sorted(l1), "rhs": sorted(l2)})
-        # the accumulator evaluated is the local that receives the result
-        e = flow.ok_edge(body, blk["id"])
-        stored = False
-        acc_locals = set()
-        for b2, i, s in body.stmts():
-            rv = s["rv"]
-            if rv["k"] == "aggregate" and rv["kind"].get("path") == "eval::DelayedEval" and rv["kind"].get("variant") == "Numeric":
-                src = flow.slice_back(body, rv["ops"][0])
-                if any(l[0] == "call" and l[1] == "<indirect>" for l in src):
-                    stored = True
-                    acc_locals.add(s["place"]["local"])
-        rep.ob("C01-R6", "result-stored", stored, "the result of the operator call is wrapped in DelayedEval::Numeric (the new accumulator)", body.site(sp))
+    for kinds in FOLD_CASES:
+        key = "fold:" + ",".join(kinds)
+        try:
+            dom, res = evalnode.fold_summary(facts, kinds)
+        except core.Undecided as e:
+            rep.ob(rule, key, False, "undecided: %s" % e)
+            continue
+        full = [(u, ev) for o, u, ev in res if u and u[0] == "ok"]
+        bad = []
+        if len(full) != 1:
+            bad.append("%d successful paths (one expected)" % len(full))
+        for u, ev in full:
+            acc = "child1"
+            steps = [e for e in ev if e[0] in ("operator", "factor")]
+            k = 0
+            for n, kd in enumerate(kinds):
+                rhs = 2 * n + 3
+                if k >= len(steps):
+                    bad.append("operator %d (%s) is never applied: the fold ends after %d step(s)" % (n + 1, kd, k))
+                    break
+                e = steps[k]
+                k += 1
+                if kd == "OP_CAST":
+                    if e[0] != "factor" or e[1] != "commensurable" or e[2] != (acc if "(" in acc else acc + ".value"):
+                        bad.append("step %d: expected the conversion of %s, got %r" % (n + 1, acc, e))
+                        break
+                    acc = "conv(%s, target%d, %s)" % (acc if "(" in acc else acc + ".value", rhs, (acc + ".unit") if "(" not in acc else "?")
+                else:
+                    want_fn = WANT_FN[kd]
+                    accn = acc
+                    if e[0] != "operator" or e[1] != want_fn or e[3] != "child%d" % rhs or not (e[2] == accn or (accn.startswith("conv(") and e[2].startswith(accn.split(", ")[0]))):
+                        bad.append("step %d: expected %s(%s, child%d), got %r" % (n + 1, want_fn, acc, rhs, e))
+                        break
+                    acc = e[4]
+            else:
+                if k != len(steps):
+                    bad.append("more operator applications than operators: %r" % (steps[k:],))
+                got = repr(u[1])
+                if not (got == acc + ".value" or (acc.startswith("conv(") and got.startswith(acc.split(", ")[0]))):
+                    bad.append("the node's value is %s; expected the last result %s" % (got, acc))
+        rep.ob(rule, key, not bad, "; ".join(bad[:3]) if bad else "operators applied in order, each to (result so far, own right operand)",
+               facts.fn("eval::eval").site(), sample={"operators": kinds})
 
 
 def run(fx, rep, tier):
